@@ -16,6 +16,7 @@ import ZarrsModel.Driver.C18
 import ZarrsModel.Driver.C19
 import ZarrsModel.Driver.C20
 import ZarrsModel.Driver.C02Shard
+import ZarrsModel.Driver.C03Chain
 /-
 Line-protocol driver: reads `request -> implementation outcome` lines, replays each request through the
 model's executable definitions and prints one verdict line per disagreement:
@@ -38,7 +39,10 @@ structure DState where
 /-- new state, acceptable outcomes (`any` accepts everything), optional note -/
 def dispatch (st : DState) (l : Line) : Option (DState × List String × Option String) :=
   match l.verbs.head? with
-  | some "c03" => (DriverC03.handle l).map (fun a => (st, a, none))
+  | some "c03" =>
+    if l.verbs[1]? == some "chains" || l.verbs[1]? == some "chaindec" then
+      (DriverC03Chain.handle l).map (fun (a, n) => (st, a, n))
+    else (DriverC03.handle l).map (fun a => (st, a, none))
   | some "c02s" => (DriverC02S.handle l).map (fun (a, n) => (st, a, n))
   | some "c02" => (DriverC01.handle st.c01 l).map (fun (s, a, n) => ({ st with c01 := s }, a, n))
   | some "c04" => (DriverC01.handle st.c01 l).map (fun (s, a, n) => ({ st with c01 := s }, a, n))
